@@ -311,9 +311,20 @@ static void check_czt(int n, int m, vh::Rng& r, bool unit_a) {
         if (n > 300) {
             lim = std::min(lim, std::log(1e100) / n);
         }
-        const double mag = std::exp(r.uni(-lim, lim));
-        const double ph = r.uni(-3.14159, 3.14159);
+        //a third of the start points lie exactly on the unit circle (the zoom-FFT case), some on the axes
+        const uint64_t ak = r.below(6);
+        const double mag = (ak <= 1) ? 1.0 : std::exp(r.uni(-lim, lim));
+        const double ph = (ak == 0) ? (3.14159265358979323846 / 2) * double(r.range(-2, 2)) : r.uni(-3.14159, 3.14159);
         a = cmplx_t{mag * std::cos(ph), mag * std::sin(ph)};
+        if (ak == 0) {
+            //exact axis points
+            const int q = ((int(std::lround(ph / (3.14159265358979323846 / 2))) % 4) + 4) % 4;
+            const cmplx_t axis[4] = {{1, 0}, {0, 1}, {-1, 0}, {0, -1}};
+            a = axis[q];
+        }
+        if (ak <= 1) {
+            vh::obs_add("czt_cases_with_unit_modulus_start");
+        }
     }
     const arr_cmplx x = gauss_cmplx(r, n);
     vh::begin_case("czt", "n=%d m=%d w=(%.17g,%.17g) a=(%.17g,%.17g)", n, m, w.re, w.im, a.re, a.im);
@@ -460,6 +471,40 @@ int main(int argc, char** argv) {
             h.i(n).i(m);
             judge("fft_c_n", m, "gauss_c", dl::fft(xc, m), ref::dft_direct(pc, -1), h.get() ^ hash_arr(xc), (m < n) ? "truncate" : (m > n ? "pad" : "same"));
             judge("fft_r_n", m, "gauss_r", dl::fft(xr, m), ref::dft_direct(pr, -1), h.get() ^ hash_arr(xr), (m < n) ? "truncate" : (m > n ? "pad" : "same"));
+        }
+    }
+
+    //--- padding histories: the same target length reached from inputs of different lengths one after another in the same thread
+    //(the last, shorter frame of a stream after longer ones; what an earlier call padded must not show up later)
+    {
+        const int cnt = thorough ? 600 : 60;
+        for (int i = 0; i < cnt; ++i) {
+            if (!vh::mine(idx++)) {
+                continue;
+            }
+            vh::Rng r = vh::rng_for("padhist", i);
+            const int m = (i % 3 == 0) ? (1 << int(r.range(3, 10))) : int(r.range(8, 700));
+            const int steps = int(r.range(3, 7));
+            for (int st = 0; st < steps; ++st) {
+                const int n = (st == 0) ? int(r.range(m / 2, m - 1)) : int(r.range(1, m - 1));
+                const arr_cmplx xc = gauss_cmplx(r, n);
+                const arr_real xr = gauss_real(r, n);
+                vh::begin_case("fft_pad_history", "target=%d step=%d input_len=%d", m, st, n);
+                CV pc(m);
+                CV pr(m);
+                for (int k = 0; k < n; ++k) {
+                    pc[k] = {xc[k].re, xc[k].im};
+                    pr[k] = {xr[k], 0};
+                }
+                vh::Hasher h;
+                h.s("padhist").i(i).i(st);
+                const CV Rc = (m <= 256) ? ref::dft_direct(pc, -1) : ref::dft_fast(pc, -1);
+                const CV Rr = (m <= 256) ? ref::dft_direct(pr, -1) : ref::dft_fast(pr, -1);
+                judge("fft_c_n", m, "gauss_c", dl::fft(xc, m), Rc, h.get() ^ hash_arr(xc), "pad_after_other_lengths");
+                judge("fft_r_n", m, "gauss_r", dl::fft(xr, m), Rr, h.get() ^ hash_arr(xr), "pad_after_other_lengths");
+                judge("rfft_n", m, "gauss_r", dl::rfft(xr, m), Rr, h.get() ^ hash_arr(xr) ^ 1, "pad_after_other_lengths");
+                vh::obs_add("pad_history_steps");
+            }
         }
     }
 
